@@ -76,6 +76,14 @@ def r15_2(ctx, fx):
             continue
         sws = [sw for sw in fn.discr_switches() if sw[2] and sw[2].endswith("query::QueryType")]
         if not sws:
+            # the dispatch written inside a closure of the function (`queries.values_mut().find_map(|state| match state { .. })`)
+            for cl in nested_closures(fx, fn):
+                if [sw for sw in cl.discr_switches() if sw[2] and sw[2].endswith("query::QueryType")]:
+                    fn = cl
+                    ctx.bodies.add((fx.cfg, cl.key))
+                    sws = [sw for sw in fn.discr_switches() if sw[2] and sw[2].endswith("query::QueryType")]
+                    break
+        if not sws:
             ctx.anchor("R15.2", "%s: match on QueryType" % d, 0, 1, cfg=fx.cfg)
             continue
         n += 1
@@ -259,6 +267,9 @@ def r15_5b(ctx, fx):
         full = {(sw, lab) for sw, lab, rel, cn in facts if rel in guards.IMPLIES[">="]}
         free = {(sw, lab) for sw, lab, rel, cn in facts if rel in guards.IMPLIES["<"] or rel == "!="}
         sched = [c.node for c in fn.calls(r"::schedule_next_peer$")]
+        if not sched:
+            # schedule_next_peer written out in place: what it does is file the peer in `pending`
+            sched = [c.node for c in fn.calls(r"HashMap(<.*>)?::insert$") if re.search(r"\.pending\b", fn.recv(c))]
         r = fn.reach([fn.entry], cut=free)
         ctx.ob("R15.5", "%s/request-scheduled-only-below-the-parallelism-factor" % short(key), bool(full) and bool(sched) and not any(x in r for x in sched),
                site=fn.site(fn.entry), cfg=fx.cfg, detail="comparisons of pending.len() with parallelism_factor: %d" % len({cn for *_, cn in facts}))
